@@ -70,6 +70,17 @@ func (x *Exec) indexAddr(st *State, fr *Frame, in *ssa.IndexAddr) {
 		x.assumeOrCheck(st, "bounds", "slice index", and(mk(SBool, "<=", intLit(0), idx), mk(SBool, "<", idx, v.Len)))
 		fr.regs[in] = PtrV{Base: v.Arr, Root: elem, Typ: in.Type(), Elem: true, Idx: addT(v.Off, idx)}
 	case PtrV:
+		if _, ft := subLeaves(v.Root, v.Path); len(v.Path) > 0 || v.Elem {
+			// a fixed array held in a field (or slice element) of an object: element pointer into that one leaf
+			if fat, isArr := ft.Underlying().(*types.Array); isArr && v.AIdx == nil {
+				x.assumeOrCheck(st, "bounds", "array index", and(mk(SBool, "<=", intLit(0), idx), mk(SBool, "<", idx, intLit(fat.Len()))))
+				q := v
+				i := idx
+				q.AIdx, q.AElem, q.Typ = &i, fat.Elem(), in.Type()
+				fr.regs[in] = q
+				return
+			}
+		}
 		at, ok := v.Root.Underlying().(*types.Array)
 		if !ok || len(v.Path) != 0 || v.Elem {
 			panic(engineErr("IndexAddr on %s unsupported", in.X.Type()))
